@@ -17,3 +17,7 @@ Definition sgnR (x : R) : R := if Rlt_dec 0 x then 1 else if Rlt_dec x 0 then -1
 
 (* the double 1e-8 (default eps of the point-in-simplex tests), exactly *)
 Definition eps8 : R := 3022314549036573 / 302231454903657293676544.
+
+(* the double nearest to 1 + 1e-8: what the float expression [1 + eps]
+   evaluates to when eps is the default 1e-8 *)
+Definition one_eps8 : R := 1125899918101623 / 1125899906842624.
